@@ -87,8 +87,8 @@ package core
 //@   ghost perr = result at call:SetOption#1
 //@   ensures perr != mangos.ErrBadOption ==> result == perr
 //@   ensures perr == mangos.ErrBadOption && name == mangos.OptionMaxRecvSize ==> (isnil(result) <==> is_int(value) && int_of(value) >= 0)
-//@   ensures perr == mangos.ErrBadOption && name == mangos.OptionReconnectTime ==> (isnil(result) <==> is_duration(value))
-//@   ensures perr == mangos.ErrBadOption && name == mangos.OptionMaxReconnectTime ==> (isnil(result) <==> is_duration(value))
+//@   ensures perr == mangos.ErrBadOption && name == mangos.OptionReconnectTime ==> (isnil(result) <==> is_duration(value) && int_of(value) >= 0)
+//@   ensures perr == mangos.ErrBadOption && name == mangos.OptionMaxReconnectTime ==> (isnil(result) <==> is_duration(value) && int_of(value) >= 0)
 //@   ensures perr == mangos.ErrBadOption && name == mangos.OptionDialAsynch ==> (isnil(result) <==> is_bool(value))
 //@   ensures perr == mangos.ErrBadOption && (name == mangos.OptionMaxRecvSize || name == mangos.OptionReconnectTime || name == mangos.OptionMaxReconnectTime || name == mangos.OptionDialAsynch) && !isnil(result) ==> result == mangos.ErrBadValue
 //@   ensures perr == mangos.ErrBadOption && name != mangos.OptionMaxRecvSize && name != mangos.OptionReconnectTime && name != mangos.OptionMaxReconnectTime && name != mangos.OptionDialAsynch ==> result == mangos.ErrBadOption
